@@ -52,8 +52,27 @@ func runModules(mainSrc string, mods map[string]string) (res r.Element, err erro
 	}
 	vm := r.InitVM(exec.GlobalValues)
 	vm.SetModuleCodeFinder(finder)
+	vm.LoadExternalLibs([]*r.Library{testLibrary()})
 	res, err = exec.EvalMainModule(vm, program, r.ElementMap{})
 	return
+}
+
+// testLibrary: a registered library 《@算》 with two functions.
+func testLibrary() *r.Library {
+	lib := r.NewLibrary("@算")
+	lib.RegisterFunction("加倍", value.NewFunction(func(receiver r.Element, params []r.Element) (r.Element, error) {
+		if n, ok := params[0].(*value.Number); ok && len(params) == 1 {
+			return value.NewNumber(n.GetValue() * 2), nil
+		}
+		return nil, fmt.Errorf("加倍: one number expected")
+	}))
+	lib.RegisterFunction("取反", value.NewFunction(func(receiver r.Element, params []r.Element) (r.Element, error) {
+		if n, ok := params[0].(*value.Number); ok && len(params) == 1 {
+			return value.NewNumber(-n.GetValue()), nil
+		}
+		return nil, fmt.Errorf("取反: one number expected")
+	}))
+	return lib
 }
 
 func modName(i int) string { return fmt.Sprintf("模块%d", i) }
@@ -100,6 +119,17 @@ func H_Graphs() {
 	if zv.Tier() == 1 {
 		N = 4
 	}
+	graphs(N, false)
+}
+
+// H_LibGraphs: every import graph on main + 2 modules in which any subset of
+// the three also imports the registered library 《@算》 (whole or one name) and
+// calls it while loading.
+func H_LibGraphs() {
+	graphs(2, true)
+}
+
+func graphs(N int, withLib bool) {
 	edges := make([][]bool, N+1)
 	for i := 0; i <= N; i++ {
 		edges[i] = make([]bool, N+1)
@@ -111,16 +141,38 @@ func H_Graphs() {
 			edges[i][j] = zv.Bool(fmt.Sprintf("e%d%d", i, j))
 		}
 	}
+	// which modules also import the registered library 《@算》 (whole or one
+	// name only) and use it while loading
+	usesLib := make([]bool, N+1)
+	selective := false
+	if withLib {
+		for i := 0; i <= N; i++ {
+			usesLib[i] = zv.Bool(fmt.Sprintf("lib%d", i))
+		}
+		selective = zv.Bool("selective")
+	}
 	src := func(i int) string {
 		s := ""
+		if usesLib[i] {
+			if selective && i > 0 {
+				s += "导入《@算》之加倍\n"
+			} else {
+				s += "导入《@算》\n"
+			}
+		}
 		for j := 1; j <= N; j++ {
 			if edges[i][j] {
 				s += "导入“" + modName(j) + "”\n"
 			}
 		}
 		s += fmt.Sprintf("（显示：%d）\n", i)
+		if usesLib[i] {
+			s += fmt.Sprintf("令库值%d = （加倍：%d）\n", i, i+50)
+		}
 		if i > 0 {
 			s += fmt.Sprintf("如何方法%d？\n    输出 %d\n", i, i*10)
+		} else if usesLib[0] {
+			s += "输出 库值0 - 1\n"
 		} else {
 			s += "输出 99\n"
 		}
@@ -159,6 +211,7 @@ func H_Graphs() {
 	zv.Assert(same, "each module body runs exactly once, before its importer's own statements")
 	n, ok := res.(*value.Number)
 	zv.Assert(ok && n.GetValue() == 99, "main program value")
+	_ = withLib
 }
 
 func isCircular(err error) bool {
@@ -204,6 +257,9 @@ var fixed = []fixedCase{
 	{"missing library", "导入《@无此库》\n输出 1", map[string]string{}, true, 0},
 	{"nested directory name", "导入“目录-子-库”\n输出（加一：1）", map[string]string{"目录-子-库": libSrc}, false, 3},
 	{"diamond: shared module", "导入“左”\n导入“右”\n输出（左法）+（右法）", map[string]string{"左": "导入“库”\n如何左法？\n    输出（加一：1）\n", "右": "导入“库”\n如何右法？\n    输出（加一：2）\n", "库": "（显示：1）\n" + libSrc}, false, 8},
+	{"library imported by main and by a module", "导入《@算》\n导入“用库”\n输出（加倍：2）+（用库法：3）", map[string]string{"用库": "导入《@算》\n如何用库法？\n    输入X\n    输出（取反：X）\n"}, false, 1},
+	{"library imported by two sibling modules", "导入“左”\n导入“右”\n输出（左法）+（右法）", map[string]string{"左": "导入《@算》\n如何左法？\n    输出（加倍：1）\n", "右": "导入《@算》之取反\n如何右法？\n    输出（取反：5）\n"}, false, -3},
+	{"selective library import hides the rest", "导入《@算》之加倍\n输出（取反：4）", map[string]string{}, true, 0},
 	{"self import", "导入“甲”\n输出 1", map[string]string{"甲": "导入“甲”\n如何F？\n    输出 1\n"}, true, 0},
 }
 
